@@ -174,6 +174,9 @@ def fields_of(det) -> dict:
     return out
 
 
+FOREIGN_COORDS = [False]  # set per probe call from its 'foreign_coords' argument
+
+
 def _write(det, bucket: str, arr) -> None:
     if bucket == "photon":
         det.photon.array = arr
@@ -181,11 +184,12 @@ def _write(det, bucket: str, arr) -> None:
         import xarray as xr
 
         nw = arr.shape[0]
-        det.photon.array_3d = xr.DataArray(
-            arr,
-            dims=("wavelength", "y", "x"),
-            coords={"wavelength": [500.0 + 10.0 * k for k in range(nw)]},
-        )
+        coords = {"wavelength": [500.0 + 10.0 * k for k in range(nw)]}
+        if FOREIGN_COORDS[0]:
+            # a cube cut out of a bigger one keeps the row / column labels of its origin
+            coords["y"] = [100 + k for k in range(arr.shape[1])]
+            coords["x"] = [200 + k for k in range(arr.shape[2])]
+        det.photon.array_3d = xr.DataArray(arr, dims=("wavelength", "y", "x"), coords=coords)
     elif bucket == "photon+":
         # in-place accumulation through the container's += operator
         try:
@@ -360,6 +364,7 @@ def P(detector, **kw) -> None:  # noqa: N802 - referenced from YAML as pyxsim.pr
     v = ref.scalar_value(kw, clk, flds, nmem, draws)
     ev["v"] = v
     rows, cols = ev["shape"]
+    FOREIGN_COORDS[0] = bool(kw.get("foreign_coords"))
     for b in kw.get("write") or []:
         if b == "scene":
             _write_scene(detector, v)
